@@ -10,7 +10,9 @@ if ! git diff --quiet; then echo "repo has uncommitted changes; refusing"; exit 
 git apply "$patch" || { echo "patch does not apply"; exit 2; }
 trap 'git -C /repo checkout -- .' EXIT
 cd /verif
-VERIF_LOCK_HELD=1 ./check "$pid" --tier "$tier"
+# evidence, replays and the trace cache of a run on a modified tree go to a scratch directory, never to /verif
+mkdir -p /tmp/verif-mutest-out
+VERIF_LOCK_HELD=1 VERIF_ALT_OUT=/tmp/verif-mutest-out ./check "$pid" --tier "$tier"
 rc=$?
 git -C /repo checkout -- .
 echo "mutest: check exit code $rc"
